@@ -27,7 +27,7 @@ var badListens = []string{
 }
 
 // what the load op may bind
-var loadListens = []string{"localhost:0", "127.0.0.1:0", "127.0.0.2:0", ":0", "0.0.0.0:0", "tcp/localhost:0", "127.0.0.1", "localhost", "0.0.0.0", "unix/c13-load-%d.sock"}
+var loadListens = []string{"localhost:0", "127.0.0.1:0", "127.0.0.2:0", ":0", "0.0.0.0:0", "tcp/localhost:0", "127.0.0.1", "localhost", "0.0.0.0", "unix/c13-load-%d.sock", "", ""}
 
 var remoteListens = []string{":2021", "", "0.0.0.0:2021", "admin.example.com:2021", "localhost:2021"}
 
